@@ -459,6 +459,15 @@ def at_limit_family(tier):
 PROG_DEFAULT = {"@N": "ap", "@V": "1.2"}      # program name / version unless a step's environment sets @N / @V
 
 
+def reg(name, kind):
+    """history item: the application registers one more built-in (lifecycle step, OpRegister of Expand.tla)"""
+    return ([("@R", str(kind))], name)
+
+
+def is_reg(env):
+    return bool(env) and env[0][0] == "@R"
+
+
 def record(ctx, exe, scripts, tag="rec", keyprefix=""):
     """Runs histories [(env, text), ...] on the implementation in record mode.  Returns (events, index, texts, nrecorded)."""
     keytok = tok([b(k) for k in sorted(TKEYS)])
@@ -466,7 +475,10 @@ def record(ctx, exe, scripts, tag="rec", keyprefix=""):
     for sid, hist in enumerate(scripts, 1):
         lines = ["S %d" % sid]
         for env, t in hist:
-            lines.append("expand %s %s = ? ?" % (envtok(env), tok(b(t))))
+            if is_reg(env):
+                lines.append("register %s %s = ? ?" % (tok(b(t)), env[0][1]))
+            else:
+                lines.append("expand %s %s = ? ?" % (envtok(env), tok(b(t))))
         lines.append("E")
         texts.append("\n".join(lines) + "\n")
     fails, recs, ns, nt = run_scripts(exe, ["aa", keytok], texts, ctx.rundir, jobs=4, tag=tag,
@@ -491,6 +503,10 @@ def record(ctx, exe, scripts, tag="rec", keyprefix=""):
             raise Broken("recording of script %d is incomplete" % sid)
         for step, (env, t) in enumerate(hist):
             ret, state = by[sid][step]
+            if is_reg(env):
+                events.append({"op": "register", "reset": step == 0, "name": b(t), "kind": int(env[0][1]), "ret": int(ret)})
+                index.append((sid, step))
+                continue
             if ret == "IMPURE":
                 ctx.report("%strace-recording expand [%s] impure" % (keyprefix, kinds(b(t), env)),
                            "the result differs between the two stack/heap fill patterns; input %r env %r" % (t[:200], env),
@@ -499,7 +515,7 @@ def record(ctx, exe, scripts, tag="rec", keyprefix=""):
             isnull = ret == "NULL"
             prog = dict(PROG_DEFAULT)
             prog.update({k: v for k, v in env if k in ("@N", "@V")})
-            events.append({"reset": step == 0, "env": [[b(k), b(v)] for k, v in env if k[:1] != "@"],
+            events.append({"op": "expand", "reset": step == 0, "env": [[b(k), b(v)] for k, v in env if k[:1] != "@"],
                            "prog": [b(prog["@N"]), b(prog["@V"])], "input": b(t), "isnull": isnull,
                            "got": [] if isnull else untok(ret), "store": untok(state)})
             index.append((sid, step))
@@ -622,6 +638,51 @@ def deep_safety_family(tier):
     return [[([], nest(d, "w%d" % d))] for d in ds] + [[([], nest(400, "x", "%version("))]]
 
 
+def byte_store_family(tier):
+    """Round 4 (full-range values crossed with a NON-EMPTY store): every byte value that can be part of a word as first and as
+    last character of a variable NAME, put / looked up / replaced in a store that already holds ordinary names sorting before
+    and after it; the projection probes the new names too (@K)."""
+    out = []
+    skip = set(b("~\\%`$\"'()")) | {9, 10, 11, 12, 13, 32}
+    for c in range(1, 256):
+        if c in skip:
+            continue
+        ch = chr(c)
+        k1, k2 = ch + "k", "k" + ch
+        env = [("@K", k1), ("@K", k2), ("@K", "mm"), ("A", "v")]
+        out.append([(env, "%put(kb v0)%put(mm v1)"), (env, "%%put(%s w1)" % k1), (env, "[%%get(%s)]" % k1), (env, "%%put(%s w2)" % k2),
+                    (env, "[%%get(%s)|%%get(%s)|%%get(kb)|%%get(mm)]" % (k2, k1)), (env, "%%put(%s w3)" % k1),
+                    (env, "[%%get(%s d)|%%get(%s d)|%%get(%sx d)]" % (k1, k2, k1))])
+    return out
+
+
+def registration_family(tier):
+    """Round 4, class 5 (lifecycle / registration tables): the application registers k more built-ins between two expansions,
+    k = 1..41 (the table of the implementation doubles at its 10th, 20th, 40th entry; 7 are the library's own), and one long
+    history alternates expansion and registration through every table size.  The expansions call core built-ins and the
+    first, the last and the last-but-one registered function, so whatever the implementation remembered about the previous
+    call meets a grown table.  Validated by TLC with the model's OpRegister / reg."""
+    env = [("A", "v")]
+    names = ["fn%d" % i if i % 2 else "g%dx" % i for i in range(1, 42)]
+
+    def probe(k):
+        t = "[%version()|%get(zz d)"
+        if k >= 1:
+            t += "|%" + names[0] + "(x $A)"
+        if k >= 2:
+            t += "|%" + names[k - 1].upper() + "(y %" + names[k - 2] + "(z))"
+        return t + "]"
+    long = [(env, probe(0))]
+    for k in range(1, 42):
+        long += [reg(names[k - 1], (k - 1) % 3), (env, probe(k))]
+    out = [long, [(env, "%" + names[0] + "(before)")] + long[1:]]
+    for k in range(1, 42):
+        out.append([(env, probe(0))] + [reg(names[i], i % 3) for i in range(k)] + [(env, probe(k)), (env, probe(k))])
+        if k >= 2:      # the call planted before the table grows is itself an application built-in
+            out.append([reg(names[0], 0), (env, probe(1))] + [reg(names[i], i % 3) for i in range(1, k)] + [(env, probe(k))])
+    return out
+
+
 def trace_validation(ctx, exe):
     rnd = random.Random(ctx.seed + 10)
     nscripts, nlong = (260, 8) if ctx.tier == "quick" else (3000, 40)
@@ -629,7 +690,8 @@ def trace_validation(ctx, exe):
     fams = {"random+at-limit": len(scripts)}
     pur0 = None
     for name, f in (("size-thresholds", size_family), ("nesting-depth", depth_family), ("purity-across-calls", purity_family),
-                    ("all-byte-values", byte_family)):
+                    ("all-byte-values", byte_family), ("byte-values-as-names-in-a-non-empty-store", byte_store_family),
+                    ("registrations-between-expansions", registration_family)):
         if name == "purity-across-calls":
             pur0 = len(scripts)
         add = f(ctx.tier)
@@ -649,15 +711,15 @@ def trace_validation(ctx, exe):
         if v["claimed"]:
             nclaimed += 1
             ntrunc += 1 if v["trunc"] else 0
-            nmax = max(nmax, len(ev["got"]))
+            nmax = max(nmax, len(ev.get("got", [])))
         else:
             why[v["why"]] = why.get(v["why"], 0) + 1
         if not v["ok"]:
             ctx.report("trace-rejected expand [%s]%s" % (kinds(b(t), env), " at-limit" if v["trunc"] or len(t) > 20000 else ""),
                        "TLC (ExpandTrace) does not accept the recorded result of event %d: input(%d chars) %r... env %r got(%d chars) %r... store %r" % (
-                           v["l"], len(t), t[:120], [(k, x[:20]) for k, x in env], len(ev["got"]), text_of(ev["got"][:120]), ev["store"]),
+                           v["l"], len(t), t[:120], [(k, x[:20]) for k, x in env], len(ev.get("got", [])), text_of(ev.get("got", [])[:120]), ev.get("store")),
                        {"variant": "pass-aa", "history": [[list(map(list, env_)), t_] for env_, t_ in scripts[sid - 1]], "step": step,
-                        "got": text_of(ev["got"])[:2000], "store": ev["store"]})
+                        "got": text_of(ev.get("got", []))[:2000], "store": ev.get("store")})
     # purity across calls: first and last event of a purity history are the same text in the same environment
     first = {}
     for k, (sid, step) in enumerate(index):
@@ -684,9 +746,9 @@ def trace_validation(ctx, exe):
     ctx.add("trace_events_validated", len(verdicts))
     ctx.add("traces_validated_against_impl", nrec)
     ctx.cov["trace"] = {"scripts": len(scripts), "events": len(events), "events_claimed": nclaimed, "events_truncated_at_limit": ntrunc,
-                        "longest_input": max(len(e["input"]) for e in events), "longest_result": nmax,
+                        "longest_input": max(len(e.get("input", [])) for e in events), "longest_result": nmax,
                         "events_unclaimed_by_reason": why, "tlc_wall_s": round(res.wall, 1), "tlc_states": res.distinct}
-    ctx.sample({"trace_event": {"input": text_of(events[0]["input"])[:160], "got": text_of(events[0]["got"])[:160]}})
+    ctx.sample({"trace_event": {"input": text_of(events[0].get("input", []))[:160], "got": text_of(events[0].get("got", []))[:160]}})
 
 
 def run(ctx):
